@@ -60,6 +60,18 @@ HARNESSES = [
         ("k_arm_start_and_zlib_header", ["C04", "C05", "C06", "C08", "C09", "C13", "C16", "C18"], ["arm Start", "arm ReadZlibCmf", "arm ReadZlibFlg", "validate_zlib_header", "read_byte"], ""),
         ("k_arm_block_done_and_adler", ["C03", "C05", "C06", "C07", "C08", "C09", "C13"], ["arm BlockDone", "arm ReadAdler32", "pad_to_bytes", "undo_bytes", "read_bits"], ""),
       )],
+    *[H(n, "K-arms", sv, cost=70, timeout=900, fns=f, strength=stg, note=nt)
+      for (n, sv, f, stg, nt) in (
+        ("k_arm_decode_litlen", ["C03", "C04", "C05", "C07", "C08"], ["arm DecodeLitlen", "fill_bit_buffer", "OutputBuffer::write_byte"],
+         "B(input<=16, output<=300 bytes; complete in decoder object, registers, flags, positions, budget, callee results)",
+         "decode_huffman_code, HuffmanTable::lookup, decompress_fast replaced by contract models"),
+        ("k_arm_decode_distance", ["C03", "C04", "C05", "C07", "C08"], ["arm DecodeDistance"],
+         "B(input<=8, output<=32 bytes; complete otherwise)", "decode_huffman_code replaced by a contract model"),
+        ("k_arm_code_lengths_hufflen", ["C03", "C04", "C05", "C07"], ["arm ReadHufflenTableCodeSize", "read_bits"],
+         "B(input<=8, output<=32 bytes; complete otherwise)", "init_tree replaced by a contract model"),
+        ("k_decompress_fast_bounded", ["C03", "C04", "C05", "C08"], ["decompress_fast", "fill_bit_buffer", "InputWrapper::read_u32_le"],
+         "B(at most 3 symbols before end-of-block, input<=18, output<=320 bytes)", "HuffmanTable::lookup, apply_match, transfer replaced by contract models"),
+      )],
     # ---- K-inflate (streaming wrapper against the M-decompress contract model) ----
     H("k_inflate_protocol", "K-inflate", ["C04", "C05", "C06", "C07", "C09", "C13"], fns=["inflate", "inflate_loop", "push_dict_out", "InflateState::new"],
       cost=60, strength="B(in<=3,out<=3 bytes => loop<=8 iterations, unwinding assertion on; complete in wrapper state, flags, flush, engine results)",
